@@ -215,6 +215,14 @@ func (m *promptManager) handleGetPrompt(ctx context.Context, req *JSONRPCRequest
 		if err != nil {
 			return newJSONRPCErrorResponse(req.ID, ErrCodeInternal, err.Error(), nil), nil
 		}
+		if result == nil {
+			return newJSONRPCErrorResponse(req.ID, ErrCodeInternal,
+				fmt.Sprintf("prompt handler returned no result (prompt: %s)", name), nil), nil
+		}
+		if result.Messages == nil {
+			// "messages" is a required array of the result: never encode it as null.
+			result.Messages = []PromptMessage{}
+		}
 		return result, nil
 	}
 
